@@ -1,16 +1,16 @@
 SPECIFICATION Spec
 CONSTANTS
   Sel <- CodeSel
-  Calls <- TwoCalls
-  Datagram = TRUE
+  Calls <- OnlyOp
+  Datagram = FALSE
   ReleaseOnWriteFail = TRUE
-  Cbs <- OneCb
-  Closers <- NoShutters
-  Shutters <- TwoShutters
-  HasReader = FALSE
-  ClosesSocket = FALSE
+  Cbs <- ThreeCbs
+  Closers <- TwoClosers
+  Shutters <- NoShutters
+  HasReader = TRUE
+  ClosesSocket = TRUE
   PopAtomic = TRUE
-  ParkWakes = "conn"
+  ParkWakes = "done"
   Noise = {"silent", "unsolicited", "garbage"}
 INVARIANTS NoFalseError SlotsSane OnceEach SockOnce DoneOnceIfReaderOnly
-PROPERTIES Ends CloseCompletes
+PROPERTIES CloseCompletes
